@@ -116,6 +116,8 @@ type frame struct {
 	panic            interface{}
 	phitemps         []value // temporaries for parallel phi assignment
 	watched          bool    // fn is under wrap-around watch
+	skipPhis         bool    // the phis of fr.block were assigned by a merge
+	mergedReturn     bool
 }
 
 func (fr *frame) get(key ssa.Value) value {
@@ -275,6 +277,9 @@ func visitInstr(fr *frame, instr ssa.Instruction) continuation {
 		cv := fr.get(instr.Cond)
 		if sc, ok := cv.(sym); ok {
 			if fr.i.tryMerge(fr, instr, sc) {
+				if fr.block == nil {
+					return kReturn
+				}
 				return kJump
 			}
 			if fr.i.p.branch(sc.t) {
@@ -703,6 +708,10 @@ func executePhis(fr *frame) []ssa.Instruction {
 	// Inv: 0 <= firstNonPhi; every block contains a non-phi.
 
 	nonPhis := fr.block.Instrs[firstNonPhi:]
+	if fr.skipPhis {
+		fr.skipPhis = false
+		return nonPhis
+	}
 	if firstNonPhi > 0 {
 		phis := fr.block.Instrs[:firstNonPhi]
 		// Execute parallel assignment of phis.
